@@ -623,6 +623,9 @@ def main():
     x_ = qk_.QActivation("quantized_relu(5,2)", name="sz_qa")(x_)
     x_ = L_.Flatten(name="sz_fl")(x_)
     x_ = qk_.QDense(4, kernel_quantizer="ternary(alpha=1.0)", bias_quantizer="quantized_bits(6,2,1)", activation="softmax", name="sz_qd_softmax")(x_)
+    # fused PLAIN activations on quantized layers: no quantizer is applied to the output, so it is counted at the reference width
+    x_ = qk_.QDense(5, kernel_quantizer="quantized_bits(4,0,1)", bias_quantizer="quantized_bits(4,0,1)", activation="sigmoid", name="sz_qd_sigmoid")(x_)
+    x_ = qk_.QDense(4, kernel_quantizer="quantized_bits(5,0,1)", use_bias=False, activation="tanh", name="sz_qd_tanh")(x_)
     x_ = L_.Dense(3, activation="tanh", name="sz_d")(x_)
     x_ = L_.Activation("sigmoid", name="sz_sig")(x_)
     x_ = qk_.QDense(2, kernel_quantizer="quantized_po2(4)", use_bias=False, name="sz_qd_lin")(x_)
@@ -631,6 +634,7 @@ def main():
     i2 = I_((8, 3), name="szin1")
     y_ = L_.Conv1D(2, 3, activation="relu", name="sz_c1")(i2)
     y_ = qk_.QConv1D(2, 2, kernel_quantizer="binary(alpha=1.0)", bias_quantizer="quantized_bits(4,1,1)", activation="quantized_tanh(4)", name="sz_qc1")(y_)
+    y_ = qk_.QConv1D(2, 1, kernel_quantizer="quantized_bits(4,0,1)", bias_quantizer=None, activation="sigmoid", name="sz_qc1_sigmoid")(y_)
     y_ = L_.Activation("linear", name="sz_lin")(y_)
     y_ = L_.Activation("relu", name="sz_relu")(y_)
     out.append(M_(i2, y_, name="szm1"))
